@@ -96,7 +96,7 @@ def main():
         open(os.path.join(dest, "notes.md"), "w").write(notes)
     # --- run the checks on /repo with the change applied
     results = {}
-    if confirmed:
+    if confirmed and not os.environ.get("SEEDTEST_FILE_ONLY"):   # FILE_ONLY: confirm + file; run the checks with tools/seedpar.py
         rc, out = sh(["git", "-C", "/repo", "apply", patch])
         if rc != 0:
             results["apply_to_repo"] = out[-500:]
